@@ -18,6 +18,7 @@ struct Bld {
     Op op;
     bool ok = true;
     int locale;
+    int force_edge = 0; // 1: the next destination goes to the end edge, 2: to the start edge (adjacent-data plans)
     Bld(Rng &r_, TaskPlan &tp_, uint32_t &top_, int loc) : r(r_), tp(tp_), top(top_), locale(loc) {}
     uint32_t alloc(uint32_t n, uint32_t align) {
         uint32_t o = (top + align - 1) & ~(align - 1);
@@ -26,8 +27,24 @@ struct Bld {
         top = o + n + slack;
         return o;
     }
-    uint32_t put(const std::string &bytes, uint32_t align, uint32_t cap_bytes) {
+    // dest = true: a destination buffer; now and then it is placed flush against the end (or at the very start) of
+    // the task's arena, i.e. directly next to another task's memory
+    uint32_t put(const std::string &bytes, uint32_t align, uint32_t cap_bytes, bool dest = false) {
         uint32_t n = std::max<uint32_t>(cap_bytes, (uint32_t)bytes.size());
+        bool want_end = force_edge == 1 && !tp.edge_end_used, want_start = force_edge == 2 && !tp.edge_start_used;
+        if (dest && n >= 1 && n <= 512 && align <= 4 && (ARENA_HI - n) % align == 0 && (want_end || want_start || r.chance(1, 8))) {
+            if (!tp.edge_end_used && (want_end || (!want_start && r.chance(2, 3)))) {
+                tp.edge_end_used = true;
+                uint32_t o = ARENA_HI - n; // ends in the first half of the word shared with the next task
+                if (!bytes.empty()) op.blobs.push_back({o, bytes});
+                return o;
+            }
+            if (!tp.edge_start_used && n <= 64) {
+                tp.edge_start_used = true;
+                if (!bytes.empty()) op.blobs.push_back({ARENA_LO, bytes}); // begins in the second half of the word shared with the previous task
+                return ARENA_LO;
+            }
+        }
         uint32_t o = alloc(n, align);
         if (ok && !bytes.empty()) op.blobs.push_back({o, bytes});
         return o;
@@ -151,7 +168,7 @@ static bool gen_inplace(Bld &b, bool viol) {
     uint32_t esz = wide ? 4 : fn == FN_memzero16_s ? 2 : fn == FN_memzero32_s ? 4 : 1;
     uint32_t cap = len + extra;
     std::string bytes = wide ? wbytes(rwstr(r, len, r.below(5)), !r.chance(1, 12)) : rstr(r, len, r.below(5)) + (r.chance(1, 12) ? "x" : std::string(1, '\0'));
-    uint32_t off = b.put(bytes, esz == 1 ? 1 : esz, cap * esz);
+    uint32_t off = b.put(bytes, esz == 1 ? 1 : esz, cap * esz, true);
     bool mem = fn == FN_memzero_s || fn == FN_memzero16_s || fn == FN_memzero32_s;
     Dm d = pick_dmax(r, cap, esz, mem ? MAXMEM / esz : (wide ? MAXWSTR : MAXSTR), viol && r.chance(3, 4));
     b.op.a[0] = (viol && r.chance(1, 4)) ? -1 : (int64_t)off;
@@ -174,9 +191,10 @@ static bool gen_copy(Bld &b, bool viol) {
     uint32_t cap = fits ? need + r.below(40) : std::max<uint32_t>(1, need > 2 ? need - 1 - r.below(need / 2) : 1);
     if (cap < (uint32_t)dlen + 1) cap = dlen + 1;
     std::string dbytes = wide ? wbytes(rwstr(r, dlen, r.below(5))) : rstr(r, dlen, r.below(5)) + std::string(1, '\0');
-    uint32_t doff = b.put(dbytes, esz, cap * esz);
+    uint32_t doff = b.put(dbytes, esz, cap * esz, true);
     int64_t soff;
-    if (r.chance(1, 10)) soff = doff + esz * r.below(cap); // overlap inside dest
+    bool at_edge = doff <= ARENA_LO || doff + cap * esz >= (uint32_t)ARENA_HI - 8; // operands must stay inside the task's own arena
+    if (!at_edge && r.chance(1, 10)) soff = doff + esz * r.below(cap); // overlap inside dest
     else {
         std::string sbytes = wide ? wbytes(rwstr(r, slen, r.below(5))) : rstr(r, slen, r.below(5)) + std::string(1, '\0');
         soff = b.put(sbytes, esz, (uint32_t)sbytes.size());
@@ -211,10 +229,11 @@ static bool gen_ncopy(Bld &b, bool viol) {
     uint32_t cap = fits ? need + r.below(40) : std::max<uint32_t>(1, need > 2 ? need - 1 - r.below(need / 2) : 1);
     if (cap < (uint32_t)dlen + 1) cap = dlen + 1;
     std::string dbytes = (widestr || wmem) ? wbytes(rwstr(r, dlen, r.below(5))) : rstr(r, dlen, r.below(5)) + std::string(1, '\0');
-    uint32_t doff = b.put(dbytes, esz, cap * esz);
+    uint32_t doff = b.put(dbytes, esz, cap * esz, true);
     int srclen = n + r.below(20);
     int64_t soff;
-    if (r.chance(1, 8)) soff = (int64_t)doff + (int64_t)esz * (r.below(2 * cap + 1)) - (r.chance(1, 2) ? (int64_t)esz * cap : 0); // overlap / adjacency
+    bool at_edge = doff <= ARENA_LO || doff + cap * esz >= (uint32_t)ARENA_HI - 8; // operands must stay inside the task's own arena
+    if (!at_edge && r.chance(1, 8)) soff = (int64_t)doff + (int64_t)esz * (r.below(2 * cap + 1)) - (r.chance(1, 2) ? (int64_t)esz * cap : 0); // overlap / adjacency
     else {
         std::string sbytes = (widestr || wmem) ? wbytes(rwstr(r, srclen, r.below(5))) : rstr(r, srclen * esz, r.below(5)) + std::string(1, '\0');
         soff = b.put(sbytes, esz, (uint32_t)sbytes.size());
@@ -245,7 +264,7 @@ static bool gen_fill(Bld &b, bool viol) {
     int len = rlen(r, 100, 700);
     uint32_t cap = len + 1 + r.below(30);
     std::string bytes = wide ? wbytes(rwstr(r, len, 0)) : rstr(r, len * (str ? 1 : esz), 0) + std::string(1, '\0');
-    uint32_t off = b.put(bytes, esz, cap * esz);
+    uint32_t off = b.put(bytes, esz, cap * esz, true);
     bool bytesdmax = !(wide || str); // memset*: dmax in bytes
     Dm d = pick_dmax(r, bytesdmax ? cap * esz : cap, bytesdmax ? 1 : esz, bytesdmax ? MAXMEM : wide ? MAXWSTR : MAXSTR, viol && r.chance(1, 2));
     b.op.a[0] = (viol && r.chance(1, 6)) ? -1 : (int64_t)off;
@@ -964,7 +983,9 @@ bool gen_alloc_op(Rng &r, TaskPlan &tp, uint32_t *top, int locale) {
 
 bool gen_op(Rng &r, int fam, TaskPlan &tp, uint32_t *top, const GenCfg &cfg, bool stdio_ok, int locale) {
     Bld b(r, tp, *top, locale);
+    b.force_edge = cfg.force_edge;
     bool viol = cfg.violations && (cfg.force_violation || r.chance(1, 6));
+    if (cfg.force_edge) viol = false;
     bool ok;
     switch (fam) {
     case FAM_INPLACE: ok = gen_inplace(b, viol); break;
@@ -1009,8 +1030,11 @@ void gen_plan(Rng &r, const GenCfg &cfg, Plan &plan) {
         Rng tr = r.sub(1000 + t);
         for (int i = 0; i < nops && (int)tp.ops.size() < cfg.max_ops + 4; i++) {
             int fam = fams[tr.below((uint32_t)fams.size())];
+            GenCfg c2 = cfg;
+            // adjacent-data plans: task t's first destination ends right before task t+1's first destination begins
+            if (cfg.adjacent && i == 0) c2.force_edge = (t % 2 == 0) ? 1 : 2;
             if (cfg.alloc_focus) { if (!gen_alloc_op(tr, tp, &top, plan.locale)) break; }
-            else if (!gen_op(tr, fam, tp, &top, cfg, t == stdio_task, plan.locale)) break;
+            else if (!gen_op(tr, fam, tp, &top, c2, t == stdio_task, plan.locale)) break;
         }
         r.next();
         plan.tasks.push_back(tp);
